@@ -203,7 +203,7 @@ class SerialSim:
     LAT = {"ack": (0.0005, 0.004), "tx": (0.014, 0.040), "answer": (0.013, 0.022), "status": (0.0002, 0.002),
            "sci-answer": (0.0005, 0.027)}
 
-    def __init__(self, kind):
+    def __init__(self, kind, driver_kwargs=None):
         import dali.driver.serial as sermod
         self.sermod = sermod
         self.kind = kind
@@ -222,10 +222,11 @@ class SerialSim:
         self.gw = LubaGateway(self) if kind == "luba" else SciGateway(self)
         self._saved = sermod.serial_asyncio
         sermod.serial_asyncio = FakeSerialAsyncio(self)
+        kw = dict(driver_kwargs or {})
         if kind == "luba":
-            self.driver = sermod.DriverLubaRs232("luba232:/dev/verif-luba")
+            self.driver = sermod.DriverLubaRs232("luba232:/dev/verif-luba", **kw)
         else:
-            self.driver = sermod.DriverSCIRS232("scirs232:/dev/verif-sci")
+            self.driver = sermod.DriverSCIRS232("scirs232:/dev/verif-sci", **kw)
         self.tasks = []
         self.delivered = []
         self.connect_task = None
